@@ -73,39 +73,87 @@ def check(ctx: Ctx) -> None:
         ob.site(f_re, f_re.node, "kwargs with a non-function source raise TypeError", ok=ok and nte >= 1, typeerror_paths=nte)
         if not (ok and nte >= 1):
             ob.violation(f_re, f_re.node, "keyword arguments for a non-function source are not rejected with TypeError", construct="no kwargs TypeError")
-        # the checks of _source_of_function
-        cs = build_cfg(repo, f_sf, Oracle(repo, f_sf, precise=True))
-        want = {
-            "lambda": lambda f: f.get("function.__name__ == '<lambda>'") is True,
-            "first parameter is `channel`": lambda f: f.get("args[0] == 'channel'") is False or f.get("args") is False
-            or any("args[0] != 'channel'" in k and v for k, v in f.env.items()),
-            "closure": lambda f: f.get("closure is None") is False,
-            "non-builtin globals": lambda f: f.get("used_globals") is True,
-        }
-        found = {k: False for k in want}
-        for nd in cs.nodes:
-            if isinstance(nd.ast, ast.Raise) and nd.id in cs.live() and unparse(nd.ast.exc).startswith("ValueError"):
-                f = Facts(repo, f_sf, {})
-                for (t, lab) in cs.guards(nd.id):
-                    if t.kind == "test":
-                        f.assume(t.ast, lab == "true")
-                for k, pred in want.items():
-                    if pred(f):
-                        found[k] = True
+        # the checks of _source_of_function, as what every *accepting* path has established (value terms: the spelling of a
+        # test -- truthiness / len() / a local holding args[0] / inverted branches -- is irrelevant)
+        from ..terms import NONE as _NONE, cmp_term as _cmp, const as _cst, subterms as _sub
+        fparam = f_sf.params()[0]
+        FN = ("sym", fparam)
+        ev_sf = _ev(repo, f_sf)
+        sf_paths = list(ev_sf.run(limit=20000))
+
+        def argspec_args(st):
+            """the positional parameter names as obtained from inspect: getfullargspec(f).args or getargspec(f)[0]"""
+            out = []
+            for e in st.events:
+                if e.kind == "call" and e.result is not None and e.args[:1] == (FN,) and not e.raised:
+                    nm = str(e.callee or "").split(".")[-1]
+                    if nm == "getfullargspec":
+                        out.append(("attr", e.result, "args"))
+                    elif nm == "getargspec":
+                        out.append(("idx", e.result, _cst(0)))
+            return out
+
+        def requirements(st):
+            known = dict(st.cond)
+            A = argspec_args(st)
+            ug = [e.result for e in st.events if e.kind == "call" and str(e.callee or "").endswith("_find_non_builtin_globals") and e.result is not None]
+            res = {}
+            res["lambda"] = _tv(_cmp("eq", ("sym", fparam + ".__name__"), _cst("<lambda>")), known) is False
+            res["first parameter is `channel`"] = bool(A) and _tv(_cmp("eq", ("idx", A[-1], _cst(0)), _cst("channel")), known) is True
+            res["closure"] = _tv(_cmp("is", ("sym", fparam + ".__closure__"), _NONE), known) is True
+            if ug:
+                L = ("pcall", "len", (ug[-1],), ())
+                res["non-builtin globals"] = _tv(ug[-1], known) is False or _tv(_cmp("eq", L, _cst(0)), known) is True or _tv(_cmp("lt", _cst(0), L), known) is False
+            else:
+                res["non-builtin globals"] = False
+            return res
+        found = {k: True for k in ("lambda", "first parameter is `channel`", "closure", "non-builtin globals")}
+        n_acc = 0
+        rejecting = 0
+        for (pth, st) in sf_paths:
+            end_ = ev_sf.cfg.nodes[pth[-1][0]]
+            if pth[-1][0] == ev_sf.cfg.exit.id:
+                n_acc += 1
+                for k, v in requirements(st).items():
+                    if not v:
+                        found[k] = False
+            else:
+                rs = [e for e in st.events if e.kind == "raise"]
+                if rs and rs[-1].value is not None and rs[-1].value[0] == "fresh" and str(rs[-1].value[2]) == "ValueError":
+                    rejecting += 1
+        ob.require(n_acc >= 1, "_source_of_function: no accepting path found")
         for k, v in found.items():
-            ob.site(f_sf, f_sf.node, f"_source_of_function rejects: {k}", ok=v)
+            ob.site(f_sf, f_sf.node, f"_source_of_function accepts only after: {k}", ok=v, rejecting_paths=rejecting)
             if not v:
                 ob.violation(f_sf, f_sf.node, f"_source_of_function no longer rejects functions by the check `{k}` with ValueError", construct=f"missing check: {k}")
-        gs = [nd for nd in cs.nodes if nd.ast is not None and any(unparse(c.func) == "inspect.getsource" for c in calls_in_node(nd))]
-        hs = [h for x in repo.own_nodes(f_sf) if isinstance(x, ast.Try) for h in x.handlers if h.type is not None and unparse(h.type) == "OSError"]
-        if not gs or not hs or not any(isinstance(y, ast.Raise) and unparse(y.exc).startswith("ValueError") for h in hs for y in ast.walk(h)):
+        if rejecting < 4:
+            ob.violation(f_sf, f_sf.node, "_source_of_function no longer rejects with ValueError", construct="ValueError paths")
+        # a function without retrievable source: inspect.getsource raising OSError ends in ValueError
+        orc_src = Oracle(repo, f_sf, precise=True, call_raises=lambda c, f: [("OSError", True)] if unparse(c.func).endswith("getsource") else None)
+        ev_src = _ev(repo, f_sf, orc_src)
+        n_src = 0
+        for (pth, st) in ev_src.run(limit=20000):
+            if any(e.kind == "call" and e.raised and str(e.callee or "").endswith("getsource") for e in st.events):
+                n_src += 1
+                rs = [e for e in st.events if e.kind == "raise"]
+                if not (pth[-1][0] == ev_src.cfg.raise_exit.id and rs and rs[-1].value is not None and rs[-1].value[0] == "fresh" and str(rs[-1].value[2]) == "ValueError"):
+                    ob.violation(f_sf, f_sf.node, "a function without retrievable source is not rejected with ValueError", construct="missing check: source")
+                    break
+        if n_src == 0:
             ob.violation(f_sf, f_sf.node, "a function without retrievable source is not rejected with ValueError", construct="missing check: source")
-        ug = [x for x in repo.own_nodes(f_sf) if isinstance(x, ast.Assign) and unparse(x.targets[0]) == "used_globals"]
-        if not ug or not (isinstance(ug[0].value, ast.Call) and callee_attr(ug[0].value) == "_find_non_builtin_globals" and [unparse(a) for a in ug[0].value.args] == ["source", "codeobj"]):
-            ob.violation(f_sf, f_sf.node, "the purity check is not applied to (source, code object) of the function")
-        cl = [x for x in repo.own_nodes(f_sf) if isinstance(x, ast.Assign) and unparse(x.targets[0]) == "closure"]
-        if not cl or unparse(cl[0].value) != "function.__closure__":
-            ob.violation(f_sf, f_sf.node, "the closure test does not look at function.__closure__")
+        # the purity scan sees (dedented source of the function, its code object)
+        for (pth, st) in sf_paths:
+            if pth[-1][0] != ev_sf.cfg.exit.id:
+                continue
+            pc = [e for e in st.events if e.kind == "call" and str(e.callee or "").endswith("_find_non_builtin_globals")]
+            okp = bool(pc) and len(pc[-1].args) == 2 and pc[-1].args[1] == ("sym", fparam + ".__code__") and pc[-1].args[0][0] == "fresh" and str(pc[-1].args[0][2]).endswith("dedent")
+            if okp:
+                gsrc = [e for e in st.events if e.kind == "call" and e.result is not None and str(e.callee or "").endswith("getsource") and e.args[:1] == (FN,)]
+                dd = [e for e in st.events if e.kind == "call" and e.result == pc[-1].args[0]]
+                okp = bool(gsrc) and bool(dd) and dd[0].args[:1] == (gsrc[-1].result,)
+            if not okp:
+                ob.violation(f_sf, f_sf.node, "the purity check is not applied to (source, code object) of the function")
+                break
 
     with ctx.obligation("C06.h", "purity-scan-complete") as ob:
         # necessary condition of "non-builtin globals are rejected locally": the scan must see the names used in *nested*
@@ -358,14 +406,24 @@ def check(ctx: Ctx) -> None:
                              construct=f"{name} rebinding")
 
     with ctx.obligation("C06.g", "lineno") as ob:
-        lw = [x for x in repo.own_nodes(f_sf) if isinstance(x, ast.Assign) and unparse(x.targets[0]) == "leading_ws"]
-        ok = len(lw) == 1 and unparse(lw[0].value) == "'\\n' * (codeobj.co_firstlineno - 1)"
-        ob.site(f_sf, lw[0] if lw else f_sf.node, "source prefixed by co_firstlineno - 1 newlines", ok=ok)
+        from ..terms import const as _cst2, evaluator as _evg
+        fpar = ("sym", f_sf.params()[0])
+        PAD = ("bin", "Mult", _cst2("\n"), ("bin", "Sub", ("sym", fpar[1] + ".__code__.co_firstlineno"), _cst2(1)))
+        ok = True
+        nret = 0
+        evg = _evg(repo, f_sf)
+        for (pth, st) in evg.run(limit=20000):
+            if pth[-1][0] != evg.cfg.exit.id or st.ret is None:
+                continue
+            nret += 1
+            R = st.ret
+            # "\n" * (co_firstlineno - 1) + <dedented source>
+            if not (R[0] == "bin" and R[1] == "Add" and R[2] == PAD and R[3][0] == "fresh" and str(R[3][2]).endswith("dedent")):
+                ok = False
+        ok = ok and nret >= 1
+        ob.site(f_sf, f_sf.node, "source prefixed by co_firstlineno - 1 newlines", ok=ok, returning_paths=nret)
         if not ok:
             ob.violation(f_sf, f_sf.node, "the function source is not prefixed by co_firstlineno - 1 newlines: remote tracebacks would name wrong lines")
-        rets = [x for x in repo.own_nodes(f_sf) if isinstance(x, ast.Return)]
-        if len(rets) != 1 or unparse(rets[0].value) != "leading_ws + source":
-            ob.violation(f_sf, f_sf.node, "_source_of_function does not return the padded source")
         co = [x for x in repo.own_nodes(f_sf) if isinstance(x, ast.Assign) and unparse(x.targets[0]) == "codeobj"]
         if not co or unparse(co[0].value) != "function.__code__":
             ob.violation(f_sf, f_sf.node, "the line number is not taken from the function's own code object")
